@@ -23,6 +23,8 @@ type c02Node struct {
 	execVal  any
 	postGot  any
 	posts    int
+	budget       int
+	cancelInLast *vCtx // cancel this context inside attempt number `budget`
 	partial  bool // failed attempts return a partial value next to their error
 	maxFails int // > 0: at most this many failed attempts, then the attempt succeeds
 }
@@ -32,6 +34,12 @@ func (n *c02Node) Prep(ctx context.Context, s *SharedStore) (any, error) { retur
 func (n *c02Node) Exec(ctx context.Context, p any) (any, error) {
 	vAssert(n.okAt == 0, "no-attempt-after-success")
 	n.calls++
+	if n.cancelInLast != nil && n.calls == n.budget {
+		// the context is cancelled from inside the LAST attempt: if that attempt fails too, all N
+		// attempts have failed and the fallback is due
+		vCover("cancelled-inside-the-last-attempt")
+		n.cancelInLast.cancel(false)
+	}
 	if (n.maxFails == 0 || n.calls <= n.maxFails) && vNondet[bool]("fail") {
 		// an attempt may fail with any kind of error value; it is still just a failed attempt
 		n.lastErr = vFailure("exec")
@@ -80,7 +88,12 @@ func VH_C02_struct() {
 	n := &c02Node{BaseNode: NewBaseNode(WithMaxRetries(N)), prepTok: &vError{id: 7}}
 	n.fbMode = vChoice("fbMode", 3)
 	n.partial = vNondet[bool]("failedAttemptsAlsoReturnAValue")
-	_, err := Run(vNewCtx(), n, NewSharedStore())
+	ctx := vNewCtx()
+	n.budget = N
+	if vNondet[bool]("cancelInsideTheLastAttempt") {
+		n.cancelInLast = ctx
+	}
+	_, err := Run(ctx, n, NewSharedStore())
 	vLog("calls", n.calls)
 	vLog("fb", n.fb)
 	if n.okAt > 0 {
